@@ -71,7 +71,7 @@ def gen_plan(seed, tier="quick"):
     else:
         ns = r.randrange(1500, 40000)
     ns = min(ns, 40000)
-    nproc = r.choice([1, 2, 2, 3, 4, 4, 5, 6, 7, 8])
+    nproc = r.choice([1, 2, 2, 3, 4, 4, 5, 6, 7, 8, 12])      # 12 = the default (3/4 of 16 CPUs)
     if nap >= 64:
         ns = min(ns, 20000)
     maxint = 512 if fixture == "NP1" else 8192
